@@ -162,7 +162,7 @@ fn doomed_tags(b: &umya::Spreadsheet, twin: Option<&Twin>, op: &Op) -> BTreeSet<
 
 pub fn op_sheet_index(op: &Op) -> Option<usize> {
     match op {
-        Op::SetText { sheet, .. } | Op::SetRich { sheet, .. } | Op::SetNum { sheet, .. } | Op::SetBool { sheet, .. } | Op::SetBlank { sheet, .. } | Op::RemoveCell { sheet, .. } | Op::SheetRemoveRow { sheet, .. } | Op::SheetRemoveCol { sheet, .. } | Op::RemoveSheet { sheet } | Op::EditComment { sheet, .. } => Some(*sheet),
+        Op::SetText { sheet, .. } | Op::SetRich { sheet, .. } | Op::SetNum { sheet, .. } | Op::SetBool { sheet, .. } | Op::SetBlank { sheet, .. } | Op::RemoveCell { sheet, .. } | Op::SheetRemoveRow { sheet, .. } | Op::SheetRemoveCol { sheet, .. } | Op::RemoveSheet { sheet } | Op::EditComment { sheet, .. } | Op::Comment { sheet, .. } | Op::CommentRich { sheet, .. } => Some(*sheet),
         _ => None,
     }
 }
@@ -195,6 +195,25 @@ fn doomed_in_sheet(b: &umya::Spreadsheet, op: &Op) -> BTreeSet<String> {
         Op::SetText { sheet, cell, .. } | Op::SetRich { sheet, cell, .. } | Op::SetNum { sheet, cell, .. } | Op::SetBool { sheet, cell, .. } | Op::SetBlank { sheet, cell } | Op::RemoveCell { sheet, cell } => {
             if let Some((c, r)) = crate::decode::col_row(cell) {
                 cell_tags(&sheets[*sheet % n], &|col, row| col == c && row == r, &mut out);
+            }
+        }
+        Op::Comment { sheet, cell, .. } | Op::CommentRich { sheet, cell, .. } => {
+            // the comment that sat on this cell is replaced
+            let ws = &sheets[*sheet % n];
+            if umya::verif_hooks::is_deserialized(ws) {
+                let mut inside = BTreeSet::new();
+                let mut outside = BTreeSet::new();
+                for c in ws.get_comments() {
+                    if c.get_coordinate().to_string() == *cell {
+                        tags_in(&c.get_text().get_text(), &mut inside);
+                    } else {
+                        tags_in(&c.get_text().get_text(), &mut outside);
+                    }
+                }
+                for c in ws.get_cell_collection() {
+                    tags_in(&c.get_value(), &mut outside);
+                }
+                out.extend(inside.difference(&outside).cloned());
             }
         }
         Op::EditComment { sheet, nth, .. } => {
